@@ -276,6 +276,9 @@ func runConn(g *prng, p connPlan) (hist []string, steps int) {
 			if c.firenow {
 				fn = 1
 			}
+			if c.timeout > 0 {
+				r.ev("cmdto %d", c.id)
+			}
 			r.ev("cmdb %d %d %d", c.id, fn, now())
 			i := 0
 			err := conn.DoCommand(ctx, "cmd", c.timeout, func(cli GenericClient) error {
